@@ -1,0 +1,297 @@
+//go:build verif
+
+package dig
+
+// Verification hooks. This file is only compiled with the "verif" build tag;
+// without the tag the package is unchanged. It adds no state and changes no
+// behaviour: it exposes a deterministic environment (random source, clock),
+// the internal cycle search on explicit graphs, and a canonical dump of the
+// mutable state of a container tree.
+
+import (
+	"fmt"
+	"math/rand"
+	"reflect"
+	"sort"
+	"strings"
+	"time"
+
+	"go.uber.org/dig/internal/graph"
+)
+
+// VerifClock is satisfied by any clock the harness wants dig to use.
+type VerifClock interface {
+	Now() time.Time
+	Since(time.Time) time.Duration
+}
+
+// verifSource is a cheap deterministic rand.Source (splitmix64).
+type verifSource struct{ x uint64 }
+
+func (s *verifSource) Seed(seed int64) { s.x = uint64(seed) }
+func (s *verifSource) Uint64() uint64 {
+	s.x += 0x9e3779b97f4a7c15
+	z := s.x
+	z = (z ^ (z >> 30)) * 0xbf58476d1ce4e5b9
+	z = (z ^ (z >> 27)) * 0x94d049bb133111eb
+	return z ^ (z >> 31)
+}
+func (s *verifSource) Int63() int64 { return int64(s.Uint64() >> 1) }
+
+type verifEnvOption struct {
+	seed int64
+	clk  VerifClock
+}
+
+func (o verifEnvOption) applyOption(c *Container) {
+	c.scope.rand = rand.New(&verifSource{x: uint64(o.seed)})
+	if o.clk != nil {
+		c.scope.clockSrc = o.clk
+	}
+}
+
+// VerifEnv installs a seeded random source and (if non-nil) the given clock in
+// the root scope of a new container.
+func VerifEnv(seed int64, clk VerifClock) Option {
+	return verifEnvOption{seed: seed, clk: clk}
+}
+
+// VerifReseedScope replaces the time-seeded random source a child scope gets
+// at creation by a deterministic one.
+func VerifReseedScope(s *Scope, seed int64) {
+	s.rand = rand.New(&verifSource{x: uint64(seed)})
+}
+
+// VerifRootScope returns the root scope of a container.
+func VerifRootScope(c *Container) *Scope { return c.scope }
+
+type verifExplicitGraph struct {
+	n     int
+	edges [][]int
+}
+
+func (g verifExplicitGraph) Order() int            { return g.n }
+func (g verifExplicitGraph) EdgesFrom(u int) []int { return g.edges[u] }
+
+// VerifIsAcyclic runs the internal cycle search on an explicit digraph with
+// nodes 0..n-1 and adjacency lists edges[u].
+func VerifIsAcyclic(n int, edges [][]int) (bool, []int) {
+	return graph.IsAcyclic(verifExplicitGraph{n: n, edges: edges})
+}
+
+// VerifStateShape lists the fields of every struct that holds mutable
+// container state, so that a harness can notice when VerifFingerprint no
+// longer covers everything.
+func VerifStateShape() string {
+	var b strings.Builder
+	for _, t := range []reflect.Type{
+		reflect.TypeOf(Scope{}),
+		reflect.TypeOf(constructorNode{}),
+		reflect.TypeOf(decoratorNode{}),
+		reflect.TypeOf(graphHolder{}),
+		reflect.TypeOf(graphNode{}),
+		reflect.TypeOf(paramGroupedSlice{}),
+		reflect.TypeOf(Container{}),
+	} {
+		b.WriteString(t.Name())
+		b.WriteString("{")
+		for i := 0; i < t.NumField(); i++ {
+			if i > 0 {
+				b.WriteString(",")
+			}
+			b.WriteString(t.Field(i).Name)
+		}
+		b.WriteString("}")
+	}
+	return b.String()
+}
+
+type verifFP struct {
+	b        strings.Builder
+	fnLabel  func(interface{}) string
+	canon    func(reflect.Value) string
+	scopeIdx map[*Scope]int
+	ids      map[interface{}]string
+	counts   map[string]int
+	printed  map[interface{}]bool
+}
+
+func (fp *verifFP) id(w interface{}) string {
+	if s, ok := fp.ids[w]; ok {
+		return s
+	}
+	var base string
+	switch n := w.(type) {
+	case *constructorNode:
+		base = "c:" + fp.fnLabel(n.ctor)
+	case *decoratorNode:
+		base = "d:" + fp.fnLabel(n.dcor)
+	case *paramGroupedSlice:
+		base = fmt.Sprintf("g:%v/%s/%v", n.Type, n.Group, n.Soft)
+	default:
+		base = fmt.Sprintf("?:%T", w)
+	}
+	k := fp.counts[base]
+	fp.counts[base] = k + 1
+	s := fmt.Sprintf("%s#%d", base, k)
+	fp.ids[w] = s
+	return s
+}
+
+func (fp *verifFP) orders(o map[*Scope]int) string {
+	type kv struct{ s, o int }
+	var l []kv
+	for s, v := range o {
+		if i, ok := fp.scopeIdx[s]; ok {
+			l = append(l, kv{i, v})
+		}
+	}
+	sort.Slice(l, func(i, j int) bool { return l[i].s < l[j].s })
+	return fmt.Sprint(l)
+}
+
+func (fp *verifFP) params(pl paramList) string {
+	var b strings.Builder
+	var walk func(p param)
+	walk = func(p param) {
+		switch p := p.(type) {
+		case paramSingle:
+			fmt.Fprintf(&b, "(%v/%s/%v)", p.Type, p.Name, p.Optional)
+		case paramGroupedSlice:
+			fmt.Fprintf(&b, "(%v*%s/%v@%s)", p.Type, p.Group, p.Soft, fp.orders(p.orders))
+		case paramObject:
+			b.WriteString("{")
+			for _, f := range p.Fields {
+				walk(f.Param)
+			}
+			b.WriteString("}")
+		}
+	}
+	for _, p := range pl.Params {
+		walk(p)
+	}
+	return b.String()
+}
+
+func (fp *verifFP) node(w interface{}) string {
+	if fp.printed[w] {
+		return fp.id(w)
+	}
+	fp.printed[w] = true
+	switch n := w.(type) {
+	case *constructorNode:
+		return fmt.Sprintf("%s[called=%v s=%d o=%d cb=%v ord=%s p=%s r=%v]", fp.id(n), n.called,
+			fp.scopeIdx[n.s], fp.scopeIdx[n.origS], n.callback != nil, fp.orders(n.orders), fp.params(n.paramList), n.resultList.DotResult())
+	case *decoratorNode:
+		return fmt.Sprintf("%s[state=%d s=%d cb=%v p=%s]", fp.id(n), n.state, fp.scopeIdx[n.s], n.callback != nil, fp.params(n.params))
+	case *paramGroupedSlice:
+		return fmt.Sprintf("%s[ord=%s]", fp.id(n), fp.orders(n.orders))
+	}
+	return fp.id(w)
+}
+
+func verifSortedKeys(m interface{}) []key {
+	v := reflect.ValueOf(m)
+	keys := make([]key, 0, v.Len())
+	for _, k := range v.MapKeys() {
+		keys = append(keys, k.Interface().(key))
+	}
+	sort.Slice(keys, func(i, j int) bool {
+		a, b := keys[i], keys[j]
+		as, bs := fmt.Sprint(a.t), fmt.Sprint(b.t)
+		if as != bs {
+			return as < bs
+		}
+		if a.name != b.name {
+			return a.name < b.name
+		}
+		return a.group < b.group
+	})
+	return keys
+}
+
+func verifKeyString(k key) string {
+	return fmt.Sprintf("%v|n=%s|g=%s", k.t, k.name, k.group)
+}
+
+// VerifFingerprint renders all mutable state of the container tree in a
+// canonical form. fnLabel names a user function (constructor or decorator);
+// canon renders a cached value.
+func VerifFingerprint(c *Container, fnLabel func(interface{}) string, canon func(reflect.Value) string) string {
+	fp := &verifFP{
+		fnLabel:  fnLabel,
+		canon:    canon,
+		scopeIdx: make(map[*Scope]int),
+		ids:      make(map[interface{}]string),
+		counts:   make(map[string]int),
+		printed:  make(map[interface{}]bool),
+	}
+	scopes := c.scope.appendSubscopes(nil)
+	for i, s := range scopes {
+		fp.scopeIdx[s] = i
+	}
+	dry := reflect.ValueOf(dryInvoker).Pointer()
+	b := &fp.b
+	for i, s := range scopes {
+		parent := -1
+		if s.parentScope != nil {
+			parent = fp.scopeIdx[s.parentScope]
+		}
+		fmt.Fprintf(b, "scope %d %q parent=%d acyc=%v defer=%v rec=%v dry=%v snap=%d children=[", i, s.name, parent,
+			s.isVerifiedAcyclic, s.deferAcyclicVerification, s.recoverFromPanics,
+			reflect.ValueOf(s.invokerFn).Pointer() == dry, s.gh.snap)
+		for _, cs := range s.childScopes {
+			fmt.Fprintf(b, "%d,", fp.scopeIdx[cs])
+		}
+		b.WriteString("]\n nodes:")
+		for _, n := range s.nodes {
+			b.WriteString(" " + fp.node(n))
+		}
+		b.WriteString("\n graph:")
+		for _, gn := range s.gh.nodes {
+			b.WriteString(" " + fp.node(gn.Wrapped))
+		}
+		b.WriteString("\n providers:")
+		for _, k := range verifSortedKeys(s.providers) {
+			ps := s.providers[k]
+			if len(ps) == 0 {
+				continue
+			}
+			fmt.Fprintf(b, " %s=>[", verifKeyString(k))
+			for _, p := range ps {
+				b.WriteString(fp.node(p) + ",")
+			}
+			b.WriteString("]")
+		}
+		b.WriteString("\n decorators:")
+		for _, k := range verifSortedKeys(s.decorators) {
+			fmt.Fprintf(b, " %s=>%s", verifKeyString(k), fp.node(s.decorators[k]))
+		}
+		b.WriteString("\n values:")
+		for _, k := range verifSortedKeys(s.values) {
+			fmt.Fprintf(b, " %s=%s", verifKeyString(k), canon(s.values[k]))
+		}
+		b.WriteString("\n decoratedValues:")
+		for _, k := range verifSortedKeys(s.decoratedValues) {
+			fmt.Fprintf(b, " %s=%s", verifKeyString(k), canon(s.decoratedValues[k]))
+		}
+		b.WriteString("\n groups:")
+		for _, k := range verifSortedKeys(s.groups) {
+			vs := s.groups[k]
+			if len(vs) == 0 {
+				continue
+			}
+			fmt.Fprintf(b, " %s=[", verifKeyString(k))
+			for _, v := range vs {
+				b.WriteString(canon(v) + ",")
+			}
+			b.WriteString("]")
+		}
+		b.WriteString("\n decoratedGroups:")
+		for _, k := range verifSortedKeys(s.decoratedGroups) {
+			fmt.Fprintf(b, " %s=%s", verifKeyString(k), canon(s.decoratedGroups[k]))
+		}
+		b.WriteString("\n")
+	}
+	return b.String()
+}
